@@ -310,9 +310,9 @@ func GenPair(seed uint64, o GenOpts) *Pair {
 	used := map[int]bool{}
 	relW := []string{"unchanged", "unchanged", "renamed", "dup", "edit", "edit", "prefix", "suffix", "middle", "grow", "shrink", "empty", "deleted", "fromempty"}
 	if o.PathFocus {
-		relW = []string{"unchanged", "renamed", "renamed", "dup", "dup", "dupdrop", "edit", "patched+renamesrc", "grow", "shrink", "empty", "deleted", "swap", "chain", "dupclobber", "dupclobber"}
+		relW = []string{"unchanged", "renamed", "renamed", "dup", "dup", "dupdrop", "edit", "patched+renamesrc", "patched+dupsrc", "grow", "shrink", "empty", "deleted", "swap", "chain", "dupclobber", "dupclobber"}
 	} else {
-		relW = append(relW, "dupdrop", "patched+renamesrc", "swap", "chain", "concat", "dupclobber", "splice", "splice")
+		relW = append(relW, "dupdrop", "patched+renamesrc", "patched+dupsrc", "swap", "chain", "concat", "dupclobber", "splice", "splice")
 	}
 	place := func(path string, data []byte) bool {
 		if !p.New.CanPlace(path) {
@@ -362,6 +362,16 @@ func GenPair(seed uint64, o GenOpts) *Pair {
 			if place(f.path, nd) {
 				place(g.newName(p.New, p.Old), f.data)
 				p.feat("patched+renamesrc")
+			}
+		case "patched+dupsrc":
+			// the file is edited in place AND its old content appears under several new names
+			nd, _ := applyEdits(r, f.data, 1)
+			if place(f.path, nd) {
+				n := r.Range(2, 3)
+				for j := 0; j < n; j++ {
+					place(g.newName(p.New, p.Old), f.data)
+				}
+				p.feat("patched+dupsrc")
 			}
 		case "prefix", "suffix", "middle":
 			nb := int64(len(f.data)) / BS
@@ -581,13 +591,13 @@ func GenPair(seed uint64, o GenOpts) *Pair {
 		}
 		if r.Chance(0.3) {
 			if t := targets(p.New); len(t) > 0 {
-				p.New.PutSymlink("lnk-added", r.PickStr(t))
+				p.New.PutSymlink("lnk-added", OddDest(r, r.PickStr(t)))
 				p.feat("symlink-added")
 			}
 		}
 		if r.Chance(0.3) {
 			if t := targets(p.Old); len(t) > 0 {
-				p.Old.PutSymlink("lnk-removed", r.PickStr(t))
+				p.Old.PutSymlink("lnk-removed", OddDest(r, r.PickStr(t)))
 				p.feat("symlink-removed")
 			}
 		}
@@ -600,8 +610,9 @@ func GenPair(seed uint64, o GenOpts) *Pair {
 			}
 		}
 		if r.Chance(0.2) {
-			p.Old.PutSymlink("lnk-same", "a")
-			p.New.PutSymlink("lnk-same", "a")
+			d := OddDest(r, "a")
+			p.Old.PutSymlink("lnk-same", d)
+			p.New.PutSymlink("lnk-same", d)
 			p.feat("symlink-kept")
 		}
 	}
@@ -679,4 +690,31 @@ func (g *genState) kindSwapN(which int, withRename bool) {
 		p.New.PutFile("ks/s2d/c.bin", small())
 		p.feat("kind:symlink->dir")
 	}
+}
+
+
+// OddDest spells a symlink destination in a way that is legal but not in its shortest form (half of the time):
+// wharf has to carry destinations verbatim.
+func OddDest(r *Rng, target string) string {
+	switch r.Intn(14) {
+	case 0:
+		return "./" + target
+	case 1:
+		return "x/../" + target
+	case 2:
+		return target + "/."
+	case 3:
+		return "sub//" + target
+	case 4:
+		return "../" + target
+	case 5:
+		return "/nonexistent/verif/" + target
+	case 6:
+		return "."
+	case 7:
+		return " spaced  name/" + target + " "
+	case 8:
+		return "d\u00e9j\u00e0/" + target
+	}
+	return target
 }
